@@ -126,6 +126,12 @@ M = [
     ('render', 'MermaidNetwork.__src', 'pjplan/viz/mermaid/network.py', "                res += f'style {t.id} {self.__dict_to_style(t.network_bar_style)}\\n'", "                res = f'style {t.id} {self.__dict_to_style(t.network_bar_style)}\\n'", 'style-lines'),
     ('children', 'Task.__lshift__[single task]', 'pjplan/task.py', "        self.predecessors += other\n        return other", "        self.successors += other\n        return other", ''),
     ('children', 'Task.__floordiv__[single task]', 'pjplan/task.py', "        self.children += other\n        return other", "        self.children = other\n        return other", ''),
+    ('render', 'MermaidGantt.__mermaid_task', 'pjplan/viz/mermaid/gantt.py', '        return "    {}: {} {}, {}, {}\\n".format(', '        return "    {}: {} {}, {}, {}".format(', 'one-line'),
+    ('render', 'MermaidGantt.__mermaid_task', 'pjplan/viz/mermaid/gantt.py', "            t.name.replace(':', ''),", "            t.name.replace(':', '\\n'),", ''),
+    ('render', 'MermaidGantt.__src', 'pjplan/viz/mermaid/gantt.py', '                res += f"  section {k}\\n"\n                for task in v:', '                for task in v:', 'one-task-line'),
+    ('render', 'MermaidGantt.__src', 'pjplan/viz/mermaid/gantt.py', "                for task in v:\n                    res += self.__mermaid_task(task)", "                for task in v:\n                    res = self.__mermaid_task(task)", 'task-lines'),
+    ('render', 'MermaidGantt.__src', 'pjplan/viz/mermaid/gantt.py', "        else:\n            for task in tasks:\n                res += self.__mermaid_task(task)", "        else:\n            for task in tasks:\n                res += self.__mermaid_task(task)\n                res += self.__mermaid_task(task)", 'task-lines'),
+    ('render', 'MermaidGantt.__src', 'pjplan/viz/mermaid/gantt.py', "                sections_map.setdefault(task_section, []).append(task)", "                sections_map.setdefault('-', []).append(task)", ''),
     ('loops', '_check_loops_from_task', 'pjplan/schedule.py', "    visited_tasks.add(task.id)\n\n    for s in task.predecessors:", "    for s in task.predecessors:", 'KeyError'),
     ('loops', '_check_loops_from_task', 'pjplan/schedule.py', "    visited_tasks.remove(task.id)\n    validated.add(task.id)", "    validated.add(task.id)", 'visited-set-is-restored'),
     ('loops', '_check_loops_from_task', 'pjplan/schedule.py', "    visited_tasks.remove(task.id)\n    validated.add(task.id)", "    visited_tasks.remove(task.id)\n    validated.remove(task.id)", 'KeyError'),
